@@ -10,7 +10,13 @@ result = {"import_error": None | {"type", "msg", "module", "line", "text"},
                                    "attrs": [python attribute names of the fields]}},
           "enums": {full_name: {"module", "qualname", "desc": b64(EnumDescriptorProto)}},
           "manifests": {module: [names]},
-          "roundtrips": [{"bytes_out": b64, "json_out": text, "from_json_out": b64} | {"raised", "msg", "stage"}]}
+          "roundtrips": [{"bytes_out": b64, "json_out": text, "from_json_out": b64} | {"raised", "msg", "stage"}],
+          "types_all": {types package: {"all": [...], "missing": [names of __all__ that are not attributes]}}}
+
+A round trip may carry "literal": the valuation as a *literal a caller would write* (tagged JSON, see `_lit`), keyed by
+the expected python attribute names; the class is then also built with `Class(literal)` and attribute by attribute with
+`setattr`, so that a field bound to a wrong type cannot hide in the unknown-field set of re-parsed bytes.
+Extra op fields: "types_packages": further python packages holding types modules (sub-packages).
 """
 import base64, importlib, pkgutil, sys, traceback
 
@@ -29,6 +35,28 @@ def _import_error(e, root):
     return {"type": type(e).__name__, "msg": str(e)[:400],
             "module": (where.filename[len(root):].lstrip("/") if where else None),
             "line": where.lineno if where else None, "text": (where.line if where else None)}
+
+
+def _lit(v):
+    """tagged JSON -> python literal: {"s"|"i"|"f"|"b": scalar} {"b64": bytes} {"msg": {attr: lit}} {"list": [...]}
+    {"map": [[k, v]...]} {"pb": [full name, b64]} (an instance of an installed *_pb2 class)"""
+    (tag, val), = v.items()
+    if tag in ("s", "i", "f", "b"):
+        return val
+    if tag == "b64":
+        return base64.b64decode(val)
+    if tag == "msg":
+        return {k: _lit(x) for k, x in val.items()}
+    if tag == "list":
+        return [_lit(x) for x in val]
+    if tag == "map":
+        return {_lit(k): _lit(x) for k, x in val}
+    if tag == "pb":
+        from google.protobuf import symbol_database
+        m = symbol_database.Default().GetSymbol(val[0])()
+        m.ParseFromString(base64.b64decode(val[1]))
+        return m
+    raise ValueError(tag)
 
 
 def op_types_session(o):
@@ -71,7 +99,19 @@ def op_types_session(o):
             out["enums"][full] = {"module": modname, "qualname": cls.__qualname__, "desc": _b64(d.SerializeToString()),
                                   "members": [[k, int(v.value)] for k, v in cls.__members__.items()]}
 
-    for m in pkgutil.iter_modules(T.__path__, pkg + ".types."):
+    tpkgs = [(pkg + ".types", T)]
+    for extra in o.get("types_packages", []):
+        try:
+            tpkgs.append((extra, importlib.import_module(extra)))
+        except BaseException as e:  # noqa
+            out["import_error"] = _import_error(e, root)
+            return out
+    out["types_all"] = {}
+    for tname, TP in tpkgs:
+        names = list(getattr(TP, "__all__", []))
+        out["types_all"][tname] = {"all": sorted(names), "missing": [n for n in names if not hasattr(TP, n)]}
+    mods = [m for tname, TP in tpkgs for m in pkgutil.iter_modules(TP.__path__, tname + ".")]
+    for m in mods:
         try:
             M = importlib.import_module(m.name)
         except BaseException as e:  # noqa
@@ -99,6 +139,25 @@ def op_types_session(o):
             res["from_json_out"] = _b64(cls.serialize(obj2))
             stage = "eq"
             res["eq"] = bool(obj == obj2)
+            if "literal" in rt:
+                stage = "literal"
+                lit = _lit({"msg": rt["literal"]})
+                stage = "ctor"
+                obj3 = cls(lit)
+                res["ctor_out"] = _b64(cls.serialize(obj3))
+                stage = "ctor_to_json"
+                res["ctor_json"] = cls.to_json(obj3)
+                stage = "setattr"
+                obj4 = cls()
+                for k, v in lit.items():
+                    setattr(obj4, k, v)
+                stage = "getattr"
+                for k in lit:
+                    getattr(obj4, k)
+                res["setattr_out"] = _b64(cls.serialize(obj4))
+                stage = "ctor_kwargs"
+                obj5 = cls(**lit)
+                res["kwargs_out"] = _b64(cls.serialize(obj5))
             out["roundtrips"].append(res)
         except BaseException as e:  # noqa
             out["roundtrips"].append({"raised": type(e).__name__, "msg": str(e)[:300], "stage": stage})
